@@ -363,3 +363,34 @@ Theorem C04_marshal_roundtrip_states : forall m objs pads, hinv m objs pads -> n
             Frame.unmarshal b = Frame.Ok (bm_data m) /\ forall junk, Frame.unmarshal (b ++ junk) = Frame.Ok (bm_data m).
 Proof. exact marshal_roundtrip_states. Qed.
 Print Assumptions C04_marshal_roundtrip_states.
+
+(* ------------------------------------------------------------------ the success half of the pointer read-back *)
+(* T18, T19, T23, T27 have the shape "if readPtr returns a handle, it is the right one"; these two
+   say that it does return one. *)
+
+(* [T30] with a non-zero depth limit and a read limit that covers the object, Segment.readPtr on
+   a pointer that resolves to table object [h] (struct, list of any kind incl. composite lists)
+   returns the handle of [h] and charges exactly [read_cost h] *)
+Theorem C04_read_object_total : forall strict (ms : segs) rl sid off h raw depth,
+  resolves_to ms sid off (p_seg h) (obj_start h) raw ->
+  p_valid h = true -> good ms h -> tag_ok ms h -> raw_of h = Ok raw ->
+  (p_kind h = KStruct -> os_isZero (p_size h) = false) ->
+  seg_len ms (p_seg h) <= 4294967288 -> depth <> 0 -> read_cost h <= rl ->
+  readPtr strict ms rl sid (nth (Z.to_nat sid) ms []) off depth = (Ok (handle_of h depth), rl - read_cost h).
+Proof. exact read_resolved_total. Qed.
+Print Assumptions C04_read_object_total.
+
+(* [T31] in every state the invariant describes: with depth limit <> 0 and a read limit that
+   covers every table object, Segment.readPtr at ANY pointer slot of any table object or at the
+   root succeeds - null handle, the inline empty struct, the handle of the table object whose
+   words the slot holds (charging its size), or the capability handle with the stored index
+   (capability read-back) *)
+Theorem C04_read_slot_total : forall strict m objs pads q rl depth,
+  hinv m objs pads -> In q ((0, 0) :: flat_map slots objs) ->
+  depth <> 0 -> 0 <= rl -> (forall h, In h objs -> read_cost h <= rl) ->
+  exists p rl', readPtr strict (bm_data m) rl (fst q) (nth (Z.to_nat (fst q)) (bm_data m) []) (snd q) depth = (Ok p, rl') /\
+    (p = nullPtr /\ rl' = rl \/ p = empty_handle q depth /\ rl' = rl \/
+     (exists h, In h objs /\ p = handle_of h depth /\ rl' = rl - read_cost h) \/
+     (exists idx, 0 <= idx < 4294967296 /\ p = mkPtr true (fst q) 0 idx (mkOS 0 0) 0 KIface false false false /\ rl' = rl)).
+Proof. exact read_slot_total. Qed.
+Print Assumptions C04_read_slot_total.
